@@ -71,7 +71,9 @@ def _(vm, a, ci):
     from .std_str import S, str_concat
     cur = S(vm, a[1])
     vm.ref_set(a[1], str_concat(vm, cur, line))
-    return ok(str_len(vm, line))
+    try: n = str_len(vm, line)
+    except Unmodelled: n = z3.BitVec(vm.fresh('nread'), 64)       # byte count of an opaque line: unconstrained
+    return ok(n)
 
 
 @trait(('io::Error', 'ToString', 'to_string'), ('Error', 'ToString', 'to_string'))
